@@ -37,11 +37,24 @@ def _self_attr(node, name=None):
             and (name is None or node.attr == name))
 
 
+class _Args:
+    """A call seen as super().<name>(args): `dict.<name>(self, args)` is the same call for a direct dict subclass."""
+    pass
+
+
 def _super_call(node, name, nargs):
-    return (isinstance(node, ast.Call) and isinstance(node.func, ast.Attribute) and node.func.attr == name
-            and isinstance(node.func.value, ast.Call) and isinstance(node.func.value.func, ast.Name)
-            and node.func.value.func.id == "super" and not node.func.value.args and not node.func.value.keywords
-            and len(node.args) == nargs and not node.keywords)
+    if not (isinstance(node, ast.Call) and isinstance(node.func, ast.Attribute) and node.func.attr == name
+            and not node.keywords):
+        return False
+    base = node.func.value
+    if (isinstance(base, ast.Call) and isinstance(base.func, ast.Name) and base.func.id == "super"
+            and not base.args and not base.keywords and len(node.args) == nargs):
+        return True
+    if (isinstance(base, ast.Name) and base.id == "dict" and len(node.args) == nargs + 1
+            and isinstance(node.args[0], ast.Name) and node.args[0].id == "self"):
+        node.args = node.args[1:]          # normalise: the remaining arguments are those of the super() form
+        return True
+    return False
 
 
 class _Method:
